@@ -35,6 +35,8 @@ type c04Input struct {
 	Methods    []BMethod `json:"methods"`
 	FuncOn     []bool    `json:"funcOn"` // initial state of every <M>Func
 	Ops        []C04Op   `json:"ops"`
+	// the interface is generic (`Store[T any]`, T stands where Named is used) and the driver instantiates it
+	Generic bool `json:"generic"`
 }
 
 type c04 struct{}
@@ -49,6 +51,7 @@ func (c04) Generate(c *Ctx) []any {
 		in := c04Input{StubImpl: i%2 == 1, WithResets: (i/2)%2 == 1, SkipEnsure: r.Intn(3) == 0,
 			StubLevel: pick(r, []string{"top", "package", "interface"}), ResetLevel: pick(r, []string{"top", "package", "interface"})}
 		nm := 1 + r.Intn(3)
+		in.Generic = r.Intn(4) == 0
 		for k := 0; k < nm; k++ {
 			in.Methods = append(in.Methods, genBMethod(r, bMethodNames[k]))
 			in.FuncOn = append(in.FuncOn, r.Intn(5) != 0)
@@ -165,7 +168,7 @@ var next = map[string][]int{}
 var reenter bool
 
 func TestDriver(t *testing.T) {
-	mock := &MockStore{}
+	mock := &MockStoreINST{}
 `)
 	for mi, m := range in.Methods {
 		// the user's function: reports what it sees, returns what the scenario says
@@ -328,7 +331,11 @@ func (c04) Run(c *Ctx, raw json.RawMessage) Case {
 	}
 	defer os.RemoveAll(dir)
 	tags := []string{fmt.Sprintf("stub-%v", in.StubImpl), fmt.Sprintf("resets-%v", in.WithResets), "stub-at-" + in.StubLevel, "resets-at-" + in.ResetLevel}
-	out, err := c.behavModule(dir, in.Methods, c04Config(&in), c04Driver(&in))
+	inst := ""
+	if in.Generic {
+		inst = "[Named]"
+	}
+	out, err := c.behavModuleG(dir, in.Methods, in.Generic, c04Config(&in), strings.ReplaceAll(c04Driver(&in), "MockStoreINST", "MockStore"+inst))
 	if err != nil {
 		return Case{Impl: map[string]any{"error": true}, Oracle: fail("does-not-run", "%v", err), Tags: tags}
 	}
